@@ -13,12 +13,14 @@ CAllowed(s, e) ==
   CASE e.ev = "consume" -> s.kind = "consume" /\ ConsumeAllowed(s.cfg, e)
     [] e.ev = "produce" -> s.kind = "produce" /\ ProduceAllowed(s.cfg, e)
     [] e.ev = "rt"      -> s.kind = "rt" /\ RoundTripAllowed(s.cfg, e)
+    [] e.ev = "seq"     -> s.kind = "seq" /\ SeqAllowed(s.cfg, e)     \* after step e.i of a history of Consume calls
     [] OTHER -> FALSE
 
 CWhy(s, e) ==
   CASE e.ev = "consume" -> ConsumeWhy(s.cfg, e)
     [] e.ev = "produce" -> ProduceWhy(s.cfg, e)
     [] e.ev = "rt"      -> RoundTripWhy(s.cfg, e)
+    [] e.ev = "seq"     -> SeqWhy(s.cfg, e)
     [] OTHER -> "unknown-event"
 
 CStep(s, e) == s
